@@ -1340,11 +1340,16 @@ class Authenticated(BaseClientHandler):
                 # Do an EXPUNGE if there are any messages marked 'Delete'
                 #
                 if self.mbox.sequences.get("Deleted", []):
-                    uid_msg_set = (
-                        list(cmd.msg_set_as_set)
-                        if cmd.uid_command and cmd.msg_set_as_set
-                        else None
-                    )
+                    # NOTE: `msg_set_as_set` holds message sequence numbers
+                    #       (the management task already mapped the uids of a
+                    #       UID EXPUNGE to them.) `expunge()` wants uids.
+                    #
+                    uid_msg_set = None
+                    if cmd.uid_command:
+                        uid_msg_set = [
+                            self.mbox.uids[x - 1]
+                            for x in sorted(cmd.msg_set_as_set or [])
+                        ]
                     await self.mbox.expunge(uid_msg_set=uid_msg_set)
         finally:
             self.idling = idling
